@@ -391,6 +391,28 @@ func (c17World) Run(prop string, ch *zsim.Choices, trace bool) *RunResult {
 			}
 		}
 
+		// (a'') every one-byte tag number in front of one small payload: a tag handler (also one
+		// added later) must not trust the type or the length of what follows its tag
+		if ch.Chance(1, 4) {
+			payload := tagPayloads[ch.Intn(len(tagPayloads))]
+			zsim.Fault("tag_sweep")
+			for t := 0; t < 256+24; t++ {
+				tag := []byte{0xd8, byte(t)}
+				if t >= 256 {
+					tag = []byte{byte(0xc0 + t - 256)}
+				}
+				buf := append(append(append([]byte{0xbf, 0x61, 'k'}, tag...), payload...), 0xff)
+				r := guarded(len(buf), t%16 == 0, func() ([]byte, error) {
+					var out bytes.Buffer
+					err := cbor.Cbor2JsonManyObjects(&c17Reader{b: buf, chunk: 0, failAt: -1}, &out)
+					return out.Bytes(), err
+				})
+				if v := totalityViolation(r, buf, fmt.Sprintf("event {\"k\": tag %x payload %x}", tag, payload)); v != nil {
+					zsim.Fail(v.Clause, "%s", v.Msg)
+				}
+			}
+		}
+
 		// (b) stored-byte faults and reader faults
 		nMut := 10 + ch.Intn(30)
 		for m := 0; m < nMut; m++ {
@@ -482,9 +504,35 @@ func totalityViolation(r decodeResult, input []byte, what string) *zsim.Violatio
 	return nil
 }
 
+// tagPayloads are small items of every major type (and some malformed ones) to put behind a tag.
+var tagPayloads = [][]byte{
+	{0x40}, {0x41, 0x00}, {0x43, 1, 2, 3}, append([]byte{0x4f}, make([]byte, 15)...), append([]byte{0x50}, make([]byte, 16)...), append([]byte{0x51}, make([]byte, 17)...),
+	{0x60}, {0x63, 'a', 'b', 'c'}, {0x00}, {0x20}, {0x18, 0xff}, {0x80}, {0x82, 1, 2}, {0xa0}, {0xa1, 0x61, 'a', 1},
+	{0xf6}, {0xf5}, {0xf7}, {0xc1, 0x00}, {0x5f, 0xff}, {0x7f, 0xff}, {0x9f, 0xff}, {0x58, 0x04, 1, 2, 3, 4}, {0x44, 10, 0, 0, 1},
+}
+
 // specialEvent builds {"k": <value>} in CBOR where the value is a number (plain or
 // under the timestamp / duration-like tags) holding an extreme of its encoding.
 func specialEvent(ch *zsim.Choices) ([]byte, string) {
+	if ch.Chance(1, 2) {
+		// any tag number in front of any small payload of any type: a tag handler must not
+		// trust the type or the length of what follows
+		var tag []byte
+		switch ch.Intn(3) {
+		case 0:
+			tag = []byte{byte(0xc0 + ch.Intn(24))}
+		case 1:
+			tag = []byte{0xd8, byte(ch.Intn(256))}
+		default:
+			tag = []byte{0xd9, byte(ch.Intn(3)), byte(ch.Intn(256))}
+		}
+		payload := tagPayloads[ch.Intn(len(tagPayloads))]
+		buf := []byte{0xbf, 0x61, 'k'}
+		buf = append(buf, tag...)
+		buf = append(buf, payload...)
+		buf = append(buf, 0xff)
+		return buf, fmt.Sprintf("event {\"k\": tag %x payload %x}", tag, payload)
+	}
 	var v []byte
 	switch ch.Intn(4) {
 	case 0: // 64-bit float
